@@ -13,7 +13,7 @@ def run(tier, t0):
     f = facts.load("all")     # der / rlp exist only with their features
     capguard.run(f, rep, "all", scope="codec")
     c11.run_a(f, rep, "all", scope="codec")
-    rep.floor("caller_sized_copies", 2)
+    rep.floor("caller_sized_copies", 1)
     rep.floor("total_entry_points", 3)
     sib = [i.to_json() for i in rep.instances.values() if i.rule == "capguard"]
     return finish(rep, tier, t0,
